@@ -68,10 +68,12 @@ pub fn parse_cli() -> Cli {
         _ => Tier::Quick,
     };
     let mut replay = None;
+    let mut tier_given = false;
     let mut extra = BTreeMap::new();
     while let Some(a) = args.next() {
         match a.as_str() {
             "--tier" => {
+                tier_given = true;
                 tier = match args.next().as_deref() {
                     Some("quick") => Tier::Quick,
                     Some("thorough") => Tier::Thorough,
@@ -86,7 +88,21 @@ pub fn parse_cli() -> Cli {
             other => machinery_error(&format!("unexpected argument {other}")),
         }
     }
-    let seed = std::env::var("VERIF_SEED").ok().and_then(|s| s.parse::<u64>().ok()).unwrap_or(0);
+    let mut seed = std::env::var("VERIF_SEED").ok().and_then(|s| s.parse::<u64>().ok()).unwrap_or(0);
+    // a replay runs under the tier and seed the artefact was found with
+    if let Some(path) = &replay {
+        let doc = load_replay(path);
+        if !tier_given {
+            if let Some("thorough") = doc["tier"].as_str() {
+                tier = Tier::Thorough;
+            } else if let Some("quick") = doc["tier"].as_str() {
+                tier = Tier::Quick;
+            }
+        }
+        if let Some(s) = doc["seed"].as_u64() {
+            seed = s;
+        }
+    }
     Cli { property, tier, replay, seed, extra }
 }
 
@@ -158,6 +174,11 @@ pub struct Report {
     rule:          Mutex<String>,
     technique:     Mutex<String>,
     pub max_reported: usize,
+    /// `--replay <artefact>`: no evidence file is written
+    replay_mode:   bool,
+    /// generic replay: the engine re-runs its enumeration and only a violation with exactly
+    /// this witness counts (engines that re-evaluate the one case themselves switch it off)
+    replay_filter: Mutex<Option<Value>>,
 }
 
 impl Report {
@@ -187,8 +208,13 @@ impl Report {
             rule: Mutex::new(String::new()),
             technique: Mutex::new(String::new()),
             max_reported: 10,
+            replay_mode: cli.replay.is_some(),
+            replay_filter: Mutex::new(cli.replay.as_ref().map(|p| load_replay(p)["witness"].clone())),
         }
     }
+
+    /// For engines that replay the single case of the artefact themselves.
+    pub fn disable_replay_filter(&self) { *self.replay_filter.lock().unwrap() = None; }
 
     pub fn elapsed_s(&self) -> f64 { self.start.elapsed().as_secs_f64() }
 
@@ -249,6 +275,11 @@ impl Report {
     /// if the engine can) case; they identify the violation for deduplication and for
     /// matching against open known findings.
     pub fn violation(&self, kind: &str, witness: Value, detail: Value) {
+        if let Some(w) = &*self.replay_filter.lock().unwrap() {
+            if *w != witness {
+                return;
+            }
+        }
         let key = format!("{kind}|{}", witness);
         {
             let mut keys = self.violation_keys.lock().unwrap();
@@ -335,11 +366,15 @@ impl Report {
             "wall_s": wall,
             "violations": nviol,
         });
-        let dir = Path::new(VERIF_ROOT).join("evidence");
-        let _ = std::fs::create_dir_all(&dir);
-        let path = dir.join(format!("{}.json", self.property));
-        if let Err(e) = std::fs::write(&path, serde_json::to_vec_pretty(&doc).unwrap()) {
-            machinery_error(&format!("cannot write evidence {}: {e}", path.display()));
+        if self.replay_mode {
+            println!("replay verdict: {}", if nviol > 0 { "VIOLATION reproduced" } else if !self.known_hit.lock().unwrap().is_empty() { "known finding reproduced" } else { "not reproduced: the property holds on this case" });
+        } else {
+            let dir = Path::new(VERIF_ROOT).join("evidence");
+            let _ = std::fs::create_dir_all(&dir);
+            let path = dir.join(format!("{}.json", self.property));
+            if let Err(e) = std::fs::write(&path, serde_json::to_vec_pretty(&doc).unwrap()) {
+                machinery_error(&format!("cannot write evidence {}: {e}", path.display()));
+            }
         }
         if nviol > 0 {
             println!("violation kinds: {:?}", self.kind_hist.lock().unwrap());
